@@ -5,7 +5,12 @@ mod l1;
 mod pt;
 mod refmodel;
 mod c01;
+mod c02;
+mod c03;
+mod c03cli;
 mod c06;
+mod asm;
+mod machine;
 mod grammar;
 mod pipeline;
 
@@ -37,12 +42,16 @@ fn main() {
     let seed: u64 = std::env::var("VERIF_SEED").ok().and_then(|s| s.trim().parse::<i128>().ok()).map(|v| v as u64).unwrap_or(0);
     let prop: &'static str = match args[1].as_str() {
         "C01" => "C01",
+        "C02" => "C02",
+        "C03" => "C03",
         "C06" => "C06",
         _ => usage(),
     };
     let ctx = Ctx::new(prop, tier, seed);
     match prop {
         "C01" => c01::run(&ctx),
+        "C02" => c02::run(&ctx),
+        "C03" => c03::run(&ctx),
         "C06" => c06::run(&ctx),
         _ => unreachable!(),
     }
@@ -68,6 +77,7 @@ fn replay(path: &str) -> i32 {
     let r = match kind {
         "l0" => l0::replay_point(&v),
         "jcc" => c06::replay(&v),
+        "l1" => l1::replay(&v),
         _ => Err(format!("unknown replay kind '{}'", kind)),
     };
     match r {
